@@ -108,6 +108,13 @@ func scenarios() []scenario {
 	add("two-revisions-augment", nil, a,
 		dump.File{Name: "b1.yang", Text: imp("b") + `revision 2020-01-01; augment /a:c { leaf y1 { type string; } } }`},
 		dump.File{Name: "b2.yang", Text: imp("b") + `revision 2021-01-01; augment /a:c { leaf y2 { type string; } } }`})
+	// ... and two revisions of the TARGET, each with augments that collide there or carry an error in
+	// their body: what is found only once the augments are merged is reported for every revision
+	add("two-revisions-of-the-target-augmented-with-problems", nil,
+		dump.File{Name: "t1.yang", Text: `module t { ` + H("t") + ` revision 2020-01-01; container c { leaf x { type string; } } }`},
+		dump.File{Name: "t2.yang", Text: `module t { ` + H("t") + ` revision 2021-01-01; container c { leaf x { type string; } leaf y { type string; } } }`},
+		dump.File{Name: "u1.yang", Text: `module u1 { ` + H("u1") + ` import t { prefix t; revision-date 2020-01-01; } augment /t:c { leaf x { type int8; } } augment /t:c { leaf z { type u1:nosuch; } } }`},
+		dump.File{Name: "u2.yang", Text: `module u2 { ` + H("u2") + ` import t { prefix t; } augment /t:c { leaf y { type int8; } leaf fine { type string; } } }`})
 	// (g) errors in several modules and lines
 	add("errors-many", nil,
 		dump.File{Name: "a.yang", Text: "module a { " + H("a") + "\n leaf p { type nosuch1; }\n leaf q { type int8 { range \"5..1\"; } }\n leaf p2 { type nosuch1; }\n uses nog;\n container c { uses nog; leaf z { type nosuch2; } } }"},
